@@ -793,7 +793,7 @@ class Checker:
                 self.report(prog, label, real_line, model_line, viol)
 
     def echo(self, idx):
-        return self.ctx.tier == "quick" or idx % 8 == 0
+        return idx % (3 if self.ctx.tier == "quick" else 8) == 0
 
     def account(self, prog, label, out, obs):
         ctx = self.ctx
@@ -978,7 +978,10 @@ def enumerate_decorate_call(ctx, chk, thorough):
     for nd, nc in combos:
         for dchain in chains[nd]:
             for cchain in chains[nc]:
-                for k in ALPHABET:
+                # quick, depth sum 3: only decorators with a fall-through / call-time state (the total ones are
+                # covered at depth sum <= 2)
+                ks = ALPHABET if (thorough or nd + nc <= 2) else ["P", "W", "memoize", "tape"]
+                for k in ks:
                     chk.add(prog_decorate_call(dchain, k, cchain, rng.choice(ALPHABET), kinds_for(rng, nd + nc)),
                             "E:decorate-then-call")
 
